@@ -32,7 +32,13 @@ def record(strings, name, tokens=False, profile="release", extra=()):
         for s in strings:
             f.write(json.dumps(s, ensure_ascii=False) + "\n")
     args = ["lang-trace", "--in", inp, "--out", out, "--ids", IDS] + (["--tokens"] if tokens else []) + list(extra)
-    vlib.conform(args, profile=profile, timeout=3600)
+    start = 0
+    for _ in range(50):
+        pr = vlib.conform(args + (["--start", start] if start else []), profile=profile, timeout=3600)
+        info = json.loads(pr.stdout.strip().splitlines()[-1])
+        if not info.get("resume"):
+            break
+        start = info["resume"]      # a query never returned: it is recorded as such, the recorder continues behind it
     return out
 
 
@@ -332,3 +338,16 @@ def observed_scales(name="observed"):
 
 
 from fractions import Fraction
+
+
+def quantity_trees(chk, name, k=2, layouts='"spaced1"'):
+    """MC_Eval over quantities: every tree with <= k operators over + - * / ^ to and the leaves 2 m, 3 km, 5 s, 0.5 min, 7 N, 4;
+    RenderParses / ParserRefines / ValueLayers are model-checked and every rendering is returned for replay"""
+    w = vlib.workdir(name)
+    consts = dict(PARSER_REPAIRED, K=k, KMin=0, LeafSet='"qty"', OpSet='"cast"', LayoutSet=layouts, Emit="TRUE", ZeroPowEarlyExit="FALSE",
+                  ZeroEntriesKept="FALSE", Temperature="FALSE")
+    cfg = mc_cfg(os.path.join(w, "qty.cfg"), consts=consts, invariants=["RenderParses", "ParserRefines", "ValueLayers", "EmitInv"])
+    t = vlib.tlc("MC_Eval", cfg, workers=12, timeout=3000, xmx="12g")
+    vlib.expect_holds(t, "MC_Eval over quantities")
+    chk.model("MC_Eval quantities K=%d" % k, t, "every tree over quantity leaves: RenderParses, ParserRefines, ValueLayers; renderings emitted")
+    return [v["src"] for tag, v in t.vecs]
